@@ -28,6 +28,9 @@ REQUIRED_THEOREMS = ['CfVerif.C14.' + t for t in (
     'lh_geo_container_roundtrip', 'lh_calib_container_roundtrip', 'lh_geo_roundtrip', 'lh_calib_roundtrip', 'lh_config_roundtrip',
     'deck_info_parse', 'deck_flags', 'deck_info_version_rejected',
     'loco_parse', 'loco2_id_list', 'loco2_active_id_list', 'loco2_anchor_data', 'poly4d_layout', 'ledtiming_image', 'ledtiming_layout',
+    'i2c_update_history_free', 'i2c_update_all_histories', 'i2c_update_is_single_shot', 'i2c_reupdate_valid_iff_checksum',
+    'i2c_pending_blocks_and_disconnect_clears', 'ow_update_history_free', 'ow_update_all_histories', 'ow_reupdate_is_single_shot',
+    'ow_stale_elements_counterexample',
     'lh_file_roundtrip', 'lh_file_roundtrip_mem', 'param_file_roundtrip', 'lh_file_rejects', 'param_file_rejects')]
 TRUSTED = ['harness/corr/c14.py extractor + correspondence (fake mem_handler: a byte array; requests served in order after the caller returned)',
            'binascii.crc32 = the bitwise CRC-32 of Model/C14 (reflected 0xEDB88320, init/xorout 0xFFFFFFFF): cross-checked on random inputs every run',
@@ -40,7 +43,9 @@ ASSUMPTIONS = ['a read returns exactly the requested bytes (the real Memory clas
                'element dict keys of OWElement are modelled as ids through the element_mapping bijection; non-Latin-1 strings raise as in Python',
                'content types outside the model: numpy arrays / non-plain objects in YAML files, missing dict keys in I2CElement.elements, non-integer EEPROM fields, negative LED timing fields, CompressedStart/CompressedSegment trajectories',
                'dict keys that are equal across types in Python (True == 1 == 1.0) are not identified by the model',
-               'Props/C14 1-wire theorems are about the parser repaired by fixes/D12-c14.patch; on the unrepaired tree the Gen obligations fail and the D12 witness is replayed']
+               'the stateful 1-wire theorems are about update() repaired by fixes/D121-c14.patch (elements re-initialised); on a tree without it gen_state_ow fails and the D121 witness is replayed',
+               'after an exception escapes new_data the attributes of the object are modelled only through the universally quantified prior state of the history theorems (a modelled history ends at the exception)',
+               'LocoMemory/LocoMemory2/DeckMemoryManager re-initialisation is pinned in Gen and exercised by repeated reads on one object; their Lean models are single-shot']
 RULE = ('cases = per image kind: write side (boundary + random field values incl. every struct range limit and float32 extremes), parse side (written images inside '
         'larger memories, every single-byte corruption of sampled EEPROM images, CRC/length/id corruptions and CRC-correct malformed TLVs for 1-wire, every 1-wire section '
         'length x first id, all 2^7 x 2^2 deck bit-field combinations, UTF-8/invalid deck names, truncated memories), lighthouse pages for random subsets of base stations, '
@@ -657,6 +662,50 @@ def extract_yaml(g):
     g.strings('pfStateType', nt)
 
 
+def guarded_body(fn, what):
+    """a method of the form `if <test>: <stmts>`: (test text, texts of the assignments of the guarded body in order)"""
+    ifs = [n for n in fn.body if isinstance(n, ast.If)]
+    X.expect(len(ifs) == 1 and not ifs[0].orelse, '%s: expected a single guarded body' % what)
+    return ast.unparse(ifs[0].test), [ast.unparse(n) for n in ifs[0].body if isinstance(n, (ast.Assign, ast.AugAssign))]
+
+
+def plain_assigns(fn):
+    return [ast.unparse(n) for n in fn.body if isinstance(n, (ast.Assign, ast.AugAssign))]
+
+
+def extract_state(g):
+    """what a long-lived element object (re)initialises when an update starts / on disconnect, and where `valid` is assigned"""
+    i2c = X.find(X.parse('cflib/crazyflie/mem/i2c_element.py'), 'I2CElement')
+    t, b = guarded_body(X.find(i2c, 'update'), 'I2CElement.update')
+    g.string('i2cUpdateGuard', t)
+    g.strings('i2cUpdateInit', b)
+    g.strings('i2cDisconnect', plain_assigns(X.find(i2c, 'disconnect')))
+    nd = X.find(i2c, 'new_data')
+    g.strings('i2cNewDataTests', [ast.unparse(n.test) for n in sorted((m for m in ast.walk(nd) if isinstance(m, ast.If)), key=lambda m: (m.lineno, m.col_offset))])
+    g.strings('i2cNewDataStateAssigns', [ast.unparse(n) for n in sorted((m for m in ast.walk(nd) if isinstance(m, ast.Assign)), key=lambda m: (m.lineno, m.col_offset))
+                                         if ast.unparse(n.targets[0]) in ('self.valid', 'self.datav0', 'self._update_finished_cb', 'done')])
+    g.strings('i2cInit', [x for x in plain_assigns(X.find(i2c, '__init__'))])
+    ow = X.find(X.parse('cflib/crazyflie/mem/ow_element.py'), 'OWElement')
+    t, b = guarded_body(X.find(ow, 'update'), 'OWElement.update')
+    g.string('owUpdateGuard', t)
+    g.strings('owUpdateInit', b)
+    g.strings('owDisconnect', plain_assigns(X.find(ow, 'disconnect')))
+    nd = X.find(ow, 'new_data')
+    g.strings('owNewDataStateAssigns', [ast.unparse(n) for n in sorted((m for m in ast.walk(nd) if isinstance(m, ast.Assign)), key=lambda m: (m.lineno, m.col_offset))
+                                        if ast.unparse(n.targets[0]) in ('self.valid', 'self._update_finished_cb', 'self.elements')])
+    pe = X.find(ow, '_parse_and_check_elements')
+    g.strings('owElemStateAssigns', [ast.unparse(n.targets[0]) for n in ast.walk(pe) if isinstance(n, ast.Assign) and ast.unparse(n.targets[0]).startswith('self.')])
+    loco = X.find(X.parse('cflib/crazyflie/mem/loco_memory.py'), 'LocoMemory')
+    t, b = guarded_body(X.find(loco, 'update'), 'LocoMemory.update')
+    g.strings('locoUpdateInit', [t] + b)
+    l2 = X.find(X.parse('cflib/crazyflie/mem/loco_memory_2.py'), 'LocoMemory2')
+    for fn, nm in (('update_id_list', 'loco2IdListInit'), ('update_active_id_list', 'loco2ActiveIdListInit'), ('update_data', 'loco2DataInit')):
+        t, b = guarded_body(X.find(l2, fn), 'LocoMemory2.' + fn)
+        g.strings(nm, [t] + b)
+    dm = X.find(X.parse('cflib/crazyflie/mem/deck_memory.py'), 'DeckMemoryManager')
+    g.strings('deckQueryInit', plain_assigns(X.find(dm, 'query_decks')))
+
+
 def extract(ctx):
     g = X.GenFile(PID, ['cflib/crazyflie/mem/i2c_element.py', 'cflib/crazyflie/mem/ow_element.py', 'cflib/crazyflie/mem/lighthouse_memory.py',
                           'cflib/crazyflie/mem/deck_memory.py', 'cflib/crazyflie/mem/loco_memory.py', 'cflib/crazyflie/mem/loco_memory_2.py',
@@ -669,6 +718,7 @@ def extract(ctx):
     extract_loco(g)
     extract_traj_led(g)
     extract_yaml(g)
+    extract_state(g)
     return {'C14.lean': g.render()}
 
 
@@ -691,6 +741,7 @@ class FakeMemHandler:
         self.q = []
         self.writes = []
         self.reads = []
+        self.next_mems = []       # memory contents that replace the current one after each served read
 
     def read(self, memory, addr, length):
         self.q.append(('r', memory, addr, length))
@@ -712,7 +763,10 @@ class FakeMemHandler:
             op = self.q.pop(0)
             if op[0] == 'r':
                 _, m, a, ln = op
-                getattr(m, new_data)(m, a, bytearray(self.mem[a:a + ln]))
+                data = bytearray(self.mem[a:a + ln])
+                if self.next_mems:
+                    self.mem = bytearray(self.next_mems.pop(0))
+                getattr(m, new_data)(m, a, data)
             else:
                 _, m, a, d = op
                 if len(self.mem) < a:
@@ -1195,11 +1249,17 @@ DECK_PROPS = ['is_valid', 'is_started', 'supports_read', 'supports_write', 'supp
               'is_bootloader_active', 'supports_reset_to_fw', 'supports_reset_to_bootloader']
 
 
-def real_deck_info(mem):
+def real_deck_info(mem, holder=None):
     _quiet()
     from cflib.crazyflie.mem.deck_memory import DeckMemoryManager
-    h = FakeMemHandler(mem)
-    mgr = DeckMemoryManager(5, 0x19, 0x2000, h)
+
+    def make():
+        h = FakeMemHandler()
+        return h, DeckMemoryManager(5, 0x19, 0x2000, h)
+    h, mgr = _long_lived(holder, 'deck', make)
+    h.mem = bytearray(mem)
+    h.q.clear()
+    mgr.disconnect()
     ok, failed = [], []
     try:
         mgr.query_decks(ok.append, failed.append)
@@ -1263,11 +1323,26 @@ def show_anchor(a):
     return '%d.%d.%d.%d' % (f32bits(a.position[0]), f32bits(a.position[1]), f32bits(a.position[2]), 1 if a.is_valid else 0)
 
 
-def real_loco(mem):
+def _long_lived(holder, key, make):
+    """a fresh (handler, object) pair, or the one kept in `holder` (repeated reads on ONE object)"""
+    if holder is None:
+        return make()
+    if key not in holder:
+        holder[key] = make()
+    return holder[key]
+
+
+def real_loco(mem, holder=None):
     _quiet()
     from cflib.crazyflie.mem.loco_memory import LocoMemory
-    h = FakeMemHandler(mem)
-    lm = LocoMemory(6, 0x11, 0x10000, h)
+
+    def make():
+        h = FakeMemHandler()
+        return h, LocoMemory(6, 0x11, 0x10000, h)
+    h, lm = _long_lived(holder, 'loco', make)
+    h.mem = bytearray(mem)
+    h.q.clear()
+    lm.disconnect()
     called = []
     try:
         lm.update(called.append)
@@ -1279,11 +1354,17 @@ def real_loco(mem):
     return 'ok n=%d a=%s V=%d' % (lm.nr_of_anchors, ';'.join(show_anchor(a) for a in lm.anchor_data) or '-', 1 if lm.valid else 0)
 
 
-def real_loco2(mem):
+def real_loco2(mem, holder=None):
     _quiet()
     from cflib.crazyflie.mem.loco_memory_2 import LocoMemory2
-    h = FakeMemHandler(mem)
-    lm = LocoMemory2(7, 0x13, 0x10000, h)
+
+    def make():
+        h = FakeMemHandler()
+        return h, LocoMemory2(7, 0x13, 0x10000, h)
+    h, lm = _long_lived(holder, 'loco2', make)
+    h.mem = bytearray(mem)
+    h.q.clear()
+    lm._update_ids_finished_cb = lm._update_active_ids_finished_cb = lm._update_data_finished_cb = None     # = disconnect() + the one it forgets
     called = []
     try:
         lm.update_id_list(lambda m: called.append('ids'))
@@ -1682,6 +1763,179 @@ def gen_yaml(ctx, cases):
         cases.append(('pf_read', 'pf_read ' + y_enc(d), (lambda d=d: real_pf_read(d)), canon_y_nan, {'op': 'pf_read', 'doc': repr(d)[:100]}, ('pf_read', y_enc(d))))
 
 
+# ---- histories on ONE long-lived element object ----------------------------------------------------------------
+def show_i2c_obj(el, called):
+    d = el.elements
+    f = ('%d,%d,%d,%d,%d' % (d['version'], d['radio_channel'], d['radio_speed'], f32bits(d['pitch_trim']), f32bits(d['roll_trim']))) if 'version' in d else '-'
+    a = str(d['radio_address']) if 'radio_address' in d else '-'
+    return 'f=%s|a=%s|V=%d|C=%d|P=%d' % (f, a, 1 if el.valid else 0, called, 1 if el._update_finished_cb else 0)
+
+
+def show_ow_obj(el, called, rev):
+    o = lambda x: '-' if x is None else str(x)
+    es = ','.join('%d=%s' % (rev[k], hexs(v.encode('ISO-8859-1'))) for k, v in el.elements.items()) or '-'
+    return 'p=%s|v=%s|i=%s|e=%s|V=%d|C=%d|P=%d' % (o(el.pins), o(el.vid), o(el.pid), es, 1 if el.valid else 0, called, 1 if el._update_finished_cb else 0)
+
+
+def real_hist(kind, steps):
+    """the steps of Driver/C14 `i2c_hist` / `ow_hist` on one real object; an exception ends the history"""
+    _quiet()
+    h = FakeMemHandler()
+    if kind == 'i2c':
+        from cflib.crazyflie.mem.i2c_element import I2CElement
+        el = I2CElement(0, 0, 0x2000, h)
+        show = show_i2c_obj
+    else:
+        from cflib.crazyflie.mem.ow_element import OWElement
+        el = OWElement(1, 1, 112, 0, h)
+        rev = {v: k for k, v in _ow_names().items()}
+        show = lambda e, c: show_ow_obj(e, c, rev)
+    out = []
+    for st in steps:
+        w = st.split(':')
+        called = []
+        unhex = lambda x: b'' if x == '-' else bytes.fromhex(x)
+        try:
+            if w[0] in ('u', 'x'):
+                h.mem = bytearray(unhex(w[1]))
+                h.next_mems = [unhex(w[2])] if w[0] == 'x' else []
+                h.q.clear()
+                el.update(lambda m, c=called: c.append(1))
+                h.run()
+                h.next_mems = []
+                out.append(show(el, len(called)))
+            elif w[0] == 'n':
+                cb = el._update_finished_cb
+                if cb is not None:
+                    el._update_finished_cb = lambda m, cb=cb, c=called: (c.append(1), cb(m))
+                nreq = len(h.q)
+                el.new_data(el, int(w[1]), bytearray(unhex(w[2])))
+                r = len(h.q) - nreq
+                h.q.clear()
+                out.append(show(el, len(called)) + '|R=%d' % (r + len(called)))
+            elif w[0] == 'w':
+                h.writes = []
+                el.write_data(lambda *a: None)
+                h.q.clear()
+                out.append('w=' + hexs(h.writes[0][1]))
+            elif w[0] == 'd':
+                el.disconnect()
+                out.append(show(el, 0))
+        except Exception as e:
+            out.append('E:' + exc_enum(e))
+            break
+    return 'ok ' + ';'.join(out)
+
+
+def canon_i2c_hist(s):
+    import re
+    return re.sub(r'f=(-?\d+),(-?\d+),(-?\d+),(\d+),(\d+)', lambda m: 'f=%s,%s,%s,%d,%d' % (m.group(1), m.group(2), m.group(3), qnan32(int(m.group(4))), qnan32(int(m.group(5)))), s)
+
+
+def i2c_mem(rng, v=None, tail=11):
+    v = rng.choice([0, 1]) if v is None else v
+    tok = bytes([0x30, 0x78, 0x42, 0x43])
+    body = struct.pack('<BBBII', v, rng.randrange(256), rng.randrange(256), rnd_f32(rng), rnd_f32(rng))
+    if v == 1:
+        body += struct.pack('<BI', rng.randrange(256), rng.getrandbits(32))
+    im = tok + body
+    im += bytes([sum(im) % 256])
+    return bytearray(im + bytes(rng.randrange(256) for _ in range(tail + (21 - len(im)))))
+
+
+def mutate_i2c(rng, mem):
+    """the kinds of change an EEPROM can undergo between two reads"""
+    m = bytearray(mem)
+    if len(m) < 21:
+        return i2c_mem(rng), 'rewritten'
+    n = 16 if m[4] == 0 else 21
+    k = rng.choice(['payload', 'checksum', 'token', 'version', 'other-image', 'other-version', 'same', 'unknown-version', 'short'])
+    if k == 'payload':
+        m[rng.randrange(5, n - 1)] ^= rng.randrange(1, 256)
+    elif k == 'checksum':
+        m[n - 1] ^= rng.randrange(1, 256)
+    elif k == 'token':
+        m[rng.randrange(4)] ^= rng.randrange(1, 256)
+    elif k == 'version':
+        m[4] = rng.choice([0, 1, 2, 255])
+    elif k == 'other-image':
+        m = i2c_mem(rng, m[4] if m[4] in (0, 1) else None)
+    elif k == 'other-version':
+        m = i2c_mem(rng, 1 - m[4] if m[4] in (0, 1) else None)
+    elif k == 'unknown-version':
+        m[4] = rng.choice([2, 3, 200])
+    elif k == 'short':
+        m = m[:rng.choice([0, 3, 10, 15, 17, 20])]
+    return m, k
+
+
+def ow_mem(rng):
+    elems = rnd_ow_elems(rng)
+    while sum(2 + len(c) for _, c in elems) > 255:
+        elems = rnd_ow_elems(rng)
+    elems = [(k, c[:rng.choice([0, 1, 4, 9])]) for k, c in elems]
+    im = ow_image(rng.getrandbits(32), rng.randrange(256), rng.randrange(256), [(k, bytes(c)) for k, c in reversed(elems)])
+    return bytearray(im + bytes(rng.choice([0xFF, rng.randrange(256)]) for _ in range(rng.choice([0, 4, 20]))))
+
+
+def mutate_ow(rng, mem):
+    m = bytearray(mem)
+    k = rng.choice(['elements', 'elements', 'payload', 'section-crc', 'header', 'header-crc', 'length', 'same', 'bad-id', 'short'])
+    n = 8 + m[9] + 3 if len(m) > 9 else len(m)
+    if k == 'elements' or len(m) < 11 or n > len(m):
+        m, k = ow_mem(rng), 'elements'
+
+    elif k == 'payload' and m[9] > 0:
+        m[rng.randrange(10, 10 + m[9])] ^= rng.randrange(1, 256)
+    elif k == 'section-crc':
+        m[min(n, len(m)) - 1] ^= rng.randrange(1, 256)
+    elif k == 'header':
+        m[rng.randrange(7)] ^= rng.randrange(1, 256)
+    elif k == 'header-crc':
+        m[7] ^= rng.randrange(1, 256)
+    elif k == 'length':
+        m[9] = rng.choice([0, 1, m[9] + 1 & 0xFF, 255])
+    elif k == 'bad-id' and m[9] > 0:
+        m[10] = rng.choice([0, 4, 200])
+        sect = bytes(m[8:10 + m[9]])
+        if 10 + m[9] < len(m):
+            m[10 + m[9]] = crc32(sect) & 0xFF
+    elif k == 'short':
+        m = m[:rng.choice([0, 5, 8, 10, 11, 12])]
+    return m, k
+
+
+def gen_hist(ctx, cases):
+    rng = ctx.rng
+    thorough = ctx.tier == 'thorough'
+    for kind, mk, mut, canon in (('i2c', i2c_mem, mutate_i2c, canon_i2c_hist), ('ow', ow_mem, mutate_ow, None)):
+        for t in range(1200 if thorough else 260):
+            mem = mk(rng)
+            steps, kinds = [], []
+            for _ in range(rng.choice([2, 3, 3, 4, 6])):
+                k = rng.random()
+                if k < 0.70 or not steps:
+                    steps.append('u:' + hexs(mem))
+                elif k < 0.78:
+                    m2, kk = mut(rng, mem)
+                    steps.append('x:%s:%s' % (hexs(mem), hexs(m2)))        # the memory changes between the two reads of one update
+                    kinds.append('mid:' + kk)
+                elif k < 0.86:
+                    steps.append('d')
+                elif k < 0.93 and kind == 'i2c':
+                    steps.append('w')
+                else:
+                    a = rng.choice([0, 8, 16, 16, 5])
+                    steps.append('n:%d:%s' % (a, hexs(bytes(mem[a:a + rng.choice([5, 11, 16, 40])]))))
+                mem, kk = mut(rng, mem)
+                kinds.append(kk)
+            line = '%s_hist %s' % (kind, ','.join(steps))
+            cases.append((kind + '_hist', line, (lambda k=kind, s=steps: real_hist(k, s)), canon,
+                          {'op': kind + '_hist', 'steps': [s[:40] for s in steps], 'changes': kinds}, (kind + '_hist', line)))
+            for kk in kinds:
+                ctx.count('hist:%s:change:%s' % (kind, kk))
+
+
 def gen_corpus(ctx, cases):
     """harness/corpus/c14/*.json: committed witnesses / past disagreements, replayed first"""
     import glob
@@ -1701,13 +1955,43 @@ def gen_corpus(ctx, cases):
                 thunk = (lambda w=w: real_i2c_write(int(w[1]), int(w[2]), int(w[3]), int(w[4]), int(w[5]), None if w[6] == 'none' else int(w[6])))
             elif w[0] == 'i2c_parse':
                 thunk = (lambda w=w: real_i2c_parse(bytes.fromhex(w[1])))
+            elif w[0] in ('i2c_hist', 'ow_hist'):
+                thunk = (lambda w=w: real_hist(w[0][:-5], w[1].split(',')))
             else:
                 raise RuntimeError('corpus %s: unknown op %s' % (fn, w[0]))
-            cases.append((w[0], line, thunk, canon_i2c_parse if w[0] == 'i2c_parse' else None,
+            cases.append((w[0], line, thunk, canon_i2c_parse if w[0] == 'i2c_parse' else canon_i2c_hist if w[0] == 'i2c_hist' else None,
                           {'op': w[0], 'corpus': os.path.basename(fn)}, ('corpus', line)))
 
 
-GENERATORS = [gen_corpus, gen_i2c, gen_ow, gen_lh, gen_deck, gen_loco, gen_yaml]
+def gen_rereads(ctx, cases):
+    """LocoMemory / LocoMemory2 / DeckMemoryManager: several reads on ONE object while the memory changes; the model parses
+    each memory on its own, so any result carried over from an earlier read is a disagreement"""
+    rng = ctx.rng
+    for g in range(40 if ctx.tier == 'thorough' else 10):
+        holder = {}
+        for step in range(3):
+            n = rng.choice([0, 1, 2, 5])
+            mem = bytearray(0x1000 + 0x100 * max(n, 1))
+            mem[0] = n
+            for i in range(n):
+                mem[0x1000 + 0x100 * i:0x1000 + 0x100 * i + 13] = anchor_bytes(rng)
+            cases.append(('loco', 'loco ' + hexs(mem), (lambda m=bytes(mem), hd=holder: real_loco(m, hd)), canon_f32_fields,
+                          {'op': 'loco', 'reread': step, 'n': n}, ('loco-reread', g, step, bytes(mem))))
+            n = rng.choice([0, 1, 3, 8])
+            mem = bytearray(0x2000 + 0x100 * 32)
+            mem[0:17] = bytes([n] + rng.sample(range(32), 16))
+            mem[0x1000:0x1011] = bytes([rng.choice([0, 2, 16])] + [rng.randrange(32) for _ in range(16)])
+            for i in range(32):
+                mem[0x2000 + 0x100 * i:0x2000 + 0x100 * i + 13] = anchor_bytes(rng)
+            cases.append(('loco2', 'loco2 ' + hexs(mem), (lambda m=bytes(mem), hd=holder: real_loco2(m, hd)), canon_f32_fields,
+                          {'op': 'loco2', 'reread': step, 'n': n}, ('loco2-reread', g, step, bytes(mem))))
+            recs = b''.join(deck_record(rng, 'ascii') for _ in range(8))
+            mem = bytes([rng.choice([3, 3, 3, 2])]) + recs
+            cases.append(('deck_info', 'deck_info ' + hexs(mem), (lambda m=mem, hd=holder: real_deck_info(m, hd)), None,
+                          {'op': 'deck_info', 'reread': step}, ('deck-reread', g, step, mem)))
+
+
+GENERATORS = [gen_corpus, gen_i2c, gen_ow, gen_hist, gen_rereads, gen_lh, gen_deck, gen_loco, gen_yaml]
 
 
 def correspond(ctx):
@@ -1923,3 +2207,103 @@ def search(ctx):
         got = real_pf_read(doc)
         if got != want:
             ctx.witness('param-file-rejection', 'parameter file reader accepts a file of another type/version', {'doc': doc}, got=got, want=want)
+
+    # ONE long-lived element object, the memory changing between reads: after every completed update() the reported
+    # validity (and for a valid image the content) must be that of the memory just read - independent spec twins
+    from cflib.crazyflie.mem.i2c_element import I2CElement
+    from cflib.crazyflie.mem.ow_element import OWElement
+    rev = {v: k for k, v in _ow_names().items()}
+
+    def i2c_expect(m):
+        if len(m) < 5 or bytes(m[0:4]) != b'0xBC' or m[4] not in (0, 1):
+            return False, None
+        ln = 16 if m[4] == 0 else 21
+        if len(m) < ln:
+            return None, None          # the read is short: the library raises, nothing is reported
+        ok = sum(m[:ln - 1]) % 256 == m[ln - 1]
+        f = struct.unpack('<BBBII', bytes(m[4:15]))
+        return ok, (f + ((m[15] << 32) | struct.unpack('<I', bytes(m[16:20]))[0],) if m[4] == 1 else f)
+
+    def ow_expect(m):
+        """(valid, elements) or None when the parse cannot complete (short memory / malformed TLV: exception in the library)"""
+        if len(m) < 11:
+            return None
+        if not (m[0] == 0xEB and (crc32(bytes(m[:7])) & 0xFF) == m[7]):
+            return False, None
+        ln = m[9]
+        sect = bytes(m[8:8 + ln + 3])
+        if len(sect) < ln + 3:
+            return None
+        if (crc32(sect[:-1]) & 0xFF) != sect[-1]:
+            return False, None
+        body, d = sect[2:-1], {}
+        while body:
+            if len(body) < 2 or body[0] not in (1, 2, 3):
+                return None
+            d[body[0]] = body[2:2 + body[1]]
+            body = body[2 + body[1]:]
+        return True, d
+    for t in range(n):
+        h = FakeMemHandler()
+        el = I2CElement(0, 0, 0x2000, h)
+        mem = i2c_mem(rng)
+        trace = []
+        for step in range(rng.choice([3, 4, 6])):
+            h.mem = bytearray(mem)
+            called = []
+            try:
+                el.update(lambda m_, c=called: c.append(1))
+                h.run()
+            except Exception:
+                called = None
+            trace.append(bytes(mem).hex())
+            if not called:
+                el.disconnect()
+                h.q.clear()
+                if el.valid and called is not None:
+                    ctx.witness('i2c-stale-validity', 'EEPROM element reports valid although the update of the current content did not complete',
+                                {'memories': trace}, got='valid=True')
+            else:
+                ok, f = i2c_expect(mem)
+                if ok is None:
+                    mem, _ = mutate_i2c(rng, mem)
+                    continue
+                bad = el.valid != ok
+                if not bad and ok:
+                    d = el.elements
+                    got = (d['version'], d['radio_channel'], d['radio_speed'], f32bits(d['pitch_trim']), f32bits(d['roll_trim']))
+                    got = got + ((d['radio_address'],) if f[0] == 1 else ())
+                    bad = tuple(qnan32(x) if i in (3, 4) else x for i, x in enumerate(got)) != tuple(qnan32(x) if i in (3, 4) else x for i, x in enumerate(f))
+                if bad:
+                    ctx.witness('i2c-stale-validity', 'on a long-lived EEPROM element a re-read reports validity/fields that differ from the checksum/content of the memory just read',
+                                {'memories': trace}, got='valid=%s elements=%r' % (el.valid, dict(el.elements)), want='valid=%s fields=%r' % (ok, f))
+                    break
+            mem, _ = mutate_i2c(rng, mem)
+        h = FakeMemHandler()
+        ow = OWElement(1, 1, 112, 0, h)
+        mem = ow_mem(rng)
+        trace = []
+        for step in range(rng.choice([3, 4, 6])):
+            h.mem = bytearray(mem)
+            called = []
+            try:
+                ow.update(lambda m_, c=called: c.append(1))
+                h.run()
+            except Exception:
+                called = None
+            trace.append(bytes(mem).hex())
+            exp = ow_expect(mem)
+            if not called:
+                ow.disconnect()
+                h.q.clear()
+            elif exp is not None:
+                got_el = {rev[k]: v.encode('ISO-8859-1') for k, v in ow.elements.items()}
+                if ow.valid != exp[0]:
+                    ctx.witness('ow-stale-validity', 'on a long-lived 1-wire element a re-read reports a validity that differs from the CRCs of the memory just read',
+                                {'memories': trace}, got='valid=%s' % ow.valid, want='valid=%s' % exp[0])
+                    break
+                if exp[0] and got_el != exp[1]:
+                    ctx.witness('D121-ow-stale-elements', 'on a long-lived 1-wire element a re-read reports elements that are not in the memory just read',
+                                {'memories': trace}, got=repr(got_el), want=repr(exp[1]))
+                    break
+            mem, _ = mutate_ow(rng, mem)
